@@ -30,11 +30,13 @@ pub struct ProjCfg {
     pub max_members: usize,
     pub max_type_depth: usize,
     pub kind_bias: Option<ItemKind>,
+    /// 1 in 12 files carries one malformed member (recovered by the parser)
+    pub broken_files: bool,
 }
 
 impl Default for ProjCfg {
     fn default() -> Self {
-        ProjCfg { max_files: 6, allow_collisions: true, allow_ambiguous: true, max_members: 5, max_type_depth: 4, kind_bias: None }
+        ProjCfg { max_files: 6, allow_collisions: true, allow_ambiguous: true, max_members: 5, max_type_depth: 4, kind_bias: None, broken_files: true }
     }
 }
 
@@ -100,15 +102,30 @@ pub fn render_text_maybe_broken(doc: &Doc, rng: &mut Rng) -> String {
     let at = if pos < n { item.children[pos].anchor } else { item.last };
     let sym = |t: &str, k: crate::reflex::K| gen::Tok { text: t.to_string(), kind: k };
     use crate::reflex::K;
-    let mut toks: Vec<gen::Tok> = r.toks[..at].to_vec();
     let is_enum = doc.item.kind == ItemKind::Enum;
-    if is_enum && pos == n && n > 0 && !doc.item.trailing_comma {
-        toks.push(sym(",", K::Comma));
+    let mut toks: Vec<gen::Tok>;
+    let variant = rng.below(4);
+    if !is_enum && n > 0 && variant == 1 {
+        // a member loses its terminator (the next member's first token becomes the offending token)
+        let k = rng.below(n);
+        let term = item.children[k].term.unwrap_or(item.last);
+        toks = r.toks[..term].to_vec();
+        toks.extend_from_slice(&r.toks[term + 1..]);
+    } else if !is_enum && variant == 2 {
+        // an empty member
+        toks = r.toks[..at].to_vec();
+        toks.push(sym(";", K::Semi));
+        toks.extend_from_slice(&r.toks[at..]);
+    } else {
+        toks = r.toks[..at].to_vec();
+        if is_enum && pos == n && n > 0 && !doc.item.trailing_comma {
+            toks.push(sym(",", K::Comma));
+        }
+        toks.push(sym("=", K::Eq));
+        toks.push(sym("=", K::Eq));
+        toks.push(if is_enum { sym(",", K::Comma) } else { sym(";", K::Semi) });
+        toks.extend_from_slice(&r.toks[at..]);
     }
-    toks.push(sym("=", K::Eq));
-    toks.push(sym("=", K::Eq));
-    toks.push(if is_enum { sym(",", K::Comma) } else { sym(";", K::Semi) });
-    toks.extend_from_slice(&r.toks[at..]);
     let style = *rng.pick(&[LayoutStyle::Spaces, LayoutStyle::Plain]);
     gen::layout(&toks, rng, style, &Default::default()).text
 }
@@ -273,7 +290,7 @@ pub fn project(rng: &mut Rng, cfg: &ProjCfg) -> Proj {
         item.name = name.clone();
         // method names: bias toward repeats, codes toward repeats (C09)
         let doc = Doc { package: split(pkg), imports: imports.iter().map(|i| split(i)).collect(), declared, item };
-        let text = render_text_maybe_broken(&doc, rng);
+        let text = if cfg.broken_files { render_text_maybe_broken(&doc, rng) } else { render_text(&doc, rng) };
         files.push(ProjFile { id: format!("f{fi}"), doc, text });
     }
     Proj { files }
